@@ -659,7 +659,9 @@ def rule_wrapping(ck: Check, repo: Repo, rid: str = "R8") -> None:
         if v("@single") and v("@first_is_dep5"):
             return "dep5"
         if not v("@all_toml"):
-            return "raise"
+            # discovery yields REUSE.toml files or one dep5 and nothing else: a found list that is neither is not produced by
+            # find_global_licensing ("an impossible scenario" in the code's own words) - no obligation in this cell
+            return "any"
         return "nested"
 
     leaves = tabulate(fn, H(), ref, params=["cls", "found", "root"])
@@ -676,7 +678,7 @@ def rule_wrapping(ck: Check, repo: Repo, rid: str = "R8") -> None:
         else:
             got = out[1][:80]
         r.instance("wrap:" + show_valuation(d), {"valuation": show_valuation(d), "result": got})
-        if got != exp:
+        if exp != "any" and got != exp:
             r.violation(q, f"[{show_valuation(d)}] global licensing object",
                         f"returns {got}, the specification says {exp}"
                         + (" - a REUSE.toml that is not wrapped is matched against root-relative paths, applies outside its own"
